@@ -339,6 +339,7 @@ def run(ctx, only=None):
         stages = [("corpus", lambda: corpus(ctx, gs)),
                   ("corr", lambda: correspondence(ctx, gs, gsp, check_arg_in_bounds, drv, rng, thorough, corr_fail) if drv is not None else None),
                   ("dims", lambda: probe_dims(ctx, gs, rng, thorough)),
+                  ("reject", lambda: probe_reject(ctx, gs, rng, thorough, drv, corr_fail)),
                   ("even", lambda: probe_even(ctx, gs, rng, thorough, drv, corr_fail)),
                   ("history", lambda: probe_history(ctx, gs, rng, thorough)),
                   ("cor", lambda: probe_cor(ctx, gs, rng, thorough)),
@@ -538,6 +539,175 @@ def probe_dims(ctx, gs, rng, thorough):
                                       dict(case, model_dim=int(m.dim), check_dim=ok_dim, warned=warned, witness=wit),
                                       key="dim-warning-missing:%s:%s:%s" % (name, sorted(cell.items()), setd))
                 guarded(ctx, "probe: dimension cells", name, cell, ("cell",), case, one)
+
+
+def cov_matrix_full(m, X):
+    """covariance matrix incl. the nugget on coincident points (cov_nugget of the isometrized distances)"""
+    n = len(X)
+    diff = (X[:, None, :] - X[None, :, :]).reshape(n * n, -1).T
+    return np.asarray(m.cov_nugget(m._get_iso_rad(tuple(diff))), dtype=float).reshape(n, n)
+
+
+BASE = {"var": 0, "len_scale": 1, "nugget": 2, "anis": 3}
+
+
+def probe_reject(ctx, gs, rng, thorough, drv, fail):
+    """documented rejections: validity is only claimed inside the bounds (model: base_bound / opt_bounds, arg_error), so an object
+    holding an out-of-bounds parameter must never come into being.  For every class x {var, len_scale, nugget, anis, each
+    optional argument} x every route (constructor with var=, with var_raw=, with integral_scale=; var_raw itself; the setter;
+    set_arg_bounds to a narrower interval followed by an assignment; fit_variogram) x values clearly outside / 1 ulp outside /
+    on / 1 ulp (or 1e-9) inside each finite bound end: the implementation raises ValueError exactly when the model's bound
+    code is non-zero.  An accepted out-of-bounds object is reported with the most negative eigenvalue found for it."""
+    stage = "probe: out-of-bounds parameters are rejected on every construction route"
+    from gstools.covmodel.tools import check_arg_in_bounds
+
+    def edge_values(lo, hi):
+        vs = []
+        for b, outward in ((lo, -1.0), (hi, 1.0)):
+            if not np.isfinite(b):
+                continue
+            eps = 1e-9 * max(1.0, abs(b))
+            vs += [b + outward * 0.5, b + outward * eps, float(np.nextafter(b, outward * np.inf)), b, b - outward * eps]
+            if b != 0.0:
+                vs.append(float(np.nextafter(b, -outward * np.inf)))
+        return [float(v) for v in vs]
+
+    def witness(m):
+        try:
+            best = None
+            for kind in ("lattice", "cluster", "uniform"):
+                X = point_set(rng, kind, m.dim, 36, float(abs(m.len_rescaled)) if np.isfinite(m.len_rescaled) and m.len_rescaled else 1.0)
+                ev = min_eig(cov_matrix_full(m, X))
+                if best is None or not (ev >= best[0]):
+                    best = (ev, kind, [[C.fhex(v) for v in row] for row in X])
+            return dict(min_eig=repr(best[0]), points_kind=best[1], points=best[2])
+        except Exception as e:  # noqa: BLE001
+            return dict(witness_failed=repr(e))
+
+    for name in NAMES:
+        ci = NAMES.index(name)
+        for dim in ([1, 2, 3] if thorough else [1, 3]):
+            m0, warned, _ = make(gs, name, dim=dim)
+            if warned:
+                continue
+            optb = m0.default_opt_arg_bounds()
+            args = ["var", "len_scale", "nugget"] + (["anis"] if dim > 1 else []) + list(optb)
+            for arg in args:
+                if arg in optb:
+                    lo, hi = float(optb[arg][0]), float(optb[arg][1])
+                else:
+                    lo, hi = 0.0, np.inf
+                for v in edge_values(lo, hi):
+                    code = None
+                    if drv is not None:
+                        code = (drv.call("arg_error", ("n", ci), ("z", dim), ("z", ONAME[arg]), v) if arg in optb
+                                else drv.call("base_error", ("z", BASE[arg]), v))
+                    impl_code = int(check_arg_in_bounds(m0, arg, val=v))
+                    if code is None:
+                        code = impl_code
+                    elif (code != 0) != (impl_code != 0):
+                        fail("bound code of %s.%s = %r (dim %d): model %s, check_arg_in_bounds %s" % (name, arg, v, dim, code, impl_code),
+                             dict(cls=name, dim=dim, arg=arg, val=C.fhex(v)))
+                    val = [v] * (dim - 1) if arg == "anis" else v
+                    routes = []
+                    routes.append(("constructor(var=)", lambda: make(gs, name, dim=dim, **{arg: val})[0]))
+                    if arg == "var":
+                        routes.append(("constructor(var_raw=v/var_factor)", lambda: make(gs, name, dim=dim, var_raw=v / float(m0.var_factor()))[0]))
+                    else:
+                        routes.append(("constructor(var_raw=1.3)", lambda: make(gs, name, dim=dim, var_raw=1.3, **{arg: val})[0]))
+                    if arg not in ("len_scale",) and code != 0:
+                        routes.append(("constructor(integral_scale=1.7)", lambda: make(gs, name, dim=dim, integral_scale=1.7, **{arg: val})[0]))
+
+                    def by_setter():
+                        m = make(gs, name, dim=dim)[0]
+                        setattr(m, arg, val)
+                        return m
+                    routes.append(("setter", by_setter))
+                    if arg == "var":
+                        def by_var_raw_setter():
+                            m = make(gs, name, dim=dim)[0]
+                            m.var_raw = v / float(m.var_factor())
+                            return m
+                        routes.append(("var_raw setter", by_var_raw_setter))
+                    for route, build in routes:
+                        case = dict(probe="reject", cls=name, cfg=dict(dim=dim), arg=arg, value=C.fhex(v), route=route, bound_code=int(code))
+                        ctx.count(("reject", name, dim, arg, route, code != 0), hist=dict(stage="probe-reject", cls=name, route=route, outside=bool(code != 0)))
+                        try:
+                            with warnings.catch_warnings():
+                                warnings.simplefilter("ignore")
+                                m = build()
+                            raised = None
+                        except ValueError as e:
+                            raised = e
+                        except Exception as e:  # noqa: BLE001
+                            if code != 0:
+                                # rejected, though not by the documented ValueError (TPL*: hurst < 0 -> 0.0 ** negative in var_factor):
+                                # no object comes into being, so the property is not touched; recorded in the evidence
+                                ctx.dist.setdefault("reject-by-other-exception", {}).setdefault(type(e).__name__, 0)
+                                ctx.dist["reject-by-other-exception"][type(e).__name__] += 1
+                                continue
+                            report(ctx, stage, "%s dim=%d %s=%r via %s raised %s instead of ValueError / acceptance: %s" % (
+                                name, dim, arg, v, route, type(e).__name__, str(e)[:120]), dict(case, exception=type(e).__name__),
+                                name, dict(dim=dim), (arg, route), "reject-other-exception")
+                            continue
+                        if code != 0 and raised is None:
+                            present = getattr(m, arg)
+                            report(ctx, stage, "%s(dim=%d) with %s = %r (outside %s, bound code %d) via %s is ACCEPTED (object holds %s = %r); %s" % (
+                                name, dim, arg, v, [lo, hi], code, route, arg, np.asarray(present).tolist(), witness(m)["min_eig"] if "min_eig" in witness(m) else ""),
+                                dict(case, held=repr(np.asarray(present).tolist()), witness=witness(m)), name, dict(dim=dim), (arg, route),
+                                "accepted-out-of-bounds:%s" % arg)
+                        elif code == 0 and raised is not None and not route.startswith("constructor(integral_scale"):
+                            # TPL classes: var depends on len_scale/hurst/len_low through var_factor; only a message about THIS argument counts
+                            if str(raised).startswith(arg + " "):
+                                report(ctx, stage, "%s(dim=%d) with %s = %r (inside %s) via %s is rejected: %s" % (name, dim, arg, v, [lo, hi], route, raised),
+                                       dict(case, error=str(raised)), name, dict(dim=dim), (arg, route), "rejected-in-bounds:%s" % arg)
+            # set_arg_bounds to a narrower interval, then assignments just outside / inside it
+            for arg in list(optb) + ["len_scale", "nugget"]:
+                cur = float(np.asarray(getattr(m0, arg)).ravel()[0])
+                nlo, nhi = cur - 0.25 * max(abs(cur), 0.1), cur + 0.25 * max(abs(cur), 0.1)
+                if arg in optb:
+                    nlo, nhi = max(nlo, float(optb[arg][0])), min(nhi, float(optb[arg][1]))
+                else:
+                    nlo = max(nlo, 0.0)
+                if not nlo < nhi:
+                    continue
+                for v, outside in ((nlo - 0.01, True), (float(np.nextafter(nlo, -np.inf)), True), (nlo, False), (nhi, False),
+                                   (float(np.nextafter(nhi, np.inf)), True), (nhi + 0.01, True)):
+                    case = dict(probe="reject", cls=name, cfg=dict(dim=dim), arg=arg, value=C.fhex(v), route="set_arg_bounds([%r, %r]) then setter" % (nlo, nhi))
+                    ctx.count(("reject-sab", name, dim, arg, outside), hist=dict(stage="probe-reject", cls=name, route="set_arg_bounds+setter", outside=outside))
+                    try:
+                        with warnings.catch_warnings():
+                            warnings.simplefilter("ignore")
+                            m = make(gs, name, dim=dim)[0]
+                            m.set_arg_bounds(**{arg: [nlo, nhi]})
+                            setattr(m, arg, v)
+                        raised = False
+                    except ValueError:
+                        raised = True
+                    if raised != outside:
+                        report(ctx, stage, "%s(dim=%d): set_arg_bounds(%s=[%r, %r]) then %s = %r: %s" % (
+                            name, dim, arg, nlo, nhi, arg, v, "rejected although inside" if raised else "ACCEPTED although outside the assigned bounds"),
+                            case, name, dict(dim=dim), (arg, "sab"), "set_arg_bounds-then-setter:%s" % arg)
+            # fit_variogram: the fitted object holds parameters inside its bounds (data of an extreme parameter set)
+            for rep in range(2 if thorough else 1):
+                try:
+                    with warnings.catch_warnings():
+                        warnings.simplefilter("ignore")
+                        src = make(gs, name, dim=dim, len_scale=float(10.0 ** rng.uniform(-1, 1)), nugget=float(rng.choice([0.0, 0.4])))[0]
+                        xs = np.linspace(0.02, 4.0, 30) * float(src.len_rescaled)
+                        ys = np.asarray(src.variogram(xs), dtype=float) * (1.0 + 0.05 * rng.normal(size=30))
+                        m = make(gs, name, dim=dim)[0]
+                        m.fit_variogram(xs, ys)
+                except (ValueError, RuntimeError):
+                    continue
+                ctx.count(("reject-fit", name, dim, rep), hist=dict(stage="probe-reject", cls=name, route="fit_variogram"))
+                for arg in ["var", "len_scale", "nugget"] + list(m.opt_arg):
+                    c = int(check_arg_in_bounds(m, arg))
+                    if c != 0:
+                        report(ctx, stage, "%s(dim=%d).fit_variogram left %s = %r outside its bounds %s (code %d)" % (
+                            name, dim, arg, getattr(m, arg), list(m.arg_bounds[arg]), c),
+                            dict(probe="reject", cls=name, cfg=dict(dim=dim), arg=arg, route="fit_variogram", xs=xs.tolist(), ys=ys.tolist(),
+                                 witness=witness(m)), name, dict(dim=dim), (arg, "fit"), "fit-out-of-bounds:%s" % arg)
 
 
 SIGNED = np.array([-1e3, -37.0, -2.5, -1.0, -0.999, -0.5, -0.1, -1e-3, -1e-8, -1e-12, 0.0])
@@ -903,7 +1073,7 @@ def probe_spectrum(ctx, gs, rng, thorough):
     1e-2 <= k len <= 30, where its own noise is ~1e-6..1e-5 of the peak (measured; it grows to 1e-3 beyond k = 100/len),
     threshold -1e-3 max S, and not for parameter sets the class itself warns about as unstable)"""
     kgrid = np.concatenate([[0.0], 10.0 ** np.linspace(-3, 3, 49 if thorough else 25)])
-    kq = np.linspace(0.5, 60.0, 120 if thorough else 40)
+    kq = np.linspace(0.5, 60.0, 80 if thorough else 40)
     for name, cfg, d, sig, p in configs(gs, rng, thorough, 12 if thorough else 5, ulp=thorough):
         L = float(rng.choice([0.4, 1.0, 6.0]))
         case = dict(probe="spectrum", cls=name, cfg=cfg, params=p, len_scale=L)
@@ -957,7 +1127,7 @@ def probe_eig(ctx, gs, rng, thorough):
     """minimum eigenvalue of covariance matrices built by the implementation (cov_spatial: rotation + anisotropy)"""
     n = 60 if thorough else 40
     stage = "probe: minimum eigenvalue of the covariance matrix"
-    for name, cfg, d, sig, p in configs(gs, rng, thorough, 20 if thorough else 5, ulp=thorough):
+    for name, cfg, d, sig, p in configs(gs, rng, thorough, 12 if thorough else 5, ulp=thorough):
         for rep in range(3 if thorough else 2):
             L = float(rng.choice([0.3, 1.0, 5.0, 40.0]))
             kw = dict(len_scale=L, var=float(rng.choice([1.0, 2.5])))
